@@ -2,7 +2,7 @@
 # tools/tryseed.sh <patch.diff> <prop> [more props...]: run checks against a scratch copy of /repo with the patch applied
 set -u
 cd /verif
-export GOFLAGS=-mod=mod GOPROXY=off GOSUMDB=off GOTOOLCHAIN=local
+export GOVC_NO_BATTERY=1 GOFLAGS=-mod=mod GOPROXY=off GOSUMDB=off GOTOOLCHAIN=local
 patch=$1; shift
 tmp=$(mktemp -d /tmp/govc-seed-XXXXXX)
 rsync -a --exclude .git /repo/ "$tmp/repo/"
